@@ -37,6 +37,11 @@ def setAttr {α} (neg : α → α) (d : Dict α) (name : String) (v : α) : Exce
     let n := resolve name
     if symbolKeys.contains n then .ok (dictSet d n v) else .error "not_an_aberration"
 
+/-- `set_aberrations(mapping)` for numeric values: `setattr(self, symbol, value)` item by item, in mapping order (the string
+"scherzer" special case is outside this model); zero values are written like any other value -/
+def setAberrations {α} (neg : α → α) (d : Dict α) (items : List (String × α)) : Except String (Dict α) :=
+  items.foldlM (fun d kv => setAttr neg d kv.1 kv.2) d
+
 /-- attribute read: the `defocus` property (`neg` = generated `defocusOfC10`), else `__getattr__` -/
 def getAttr {α} (neg : α → α) (zero : α) (d : Dict α) (name : String) : Except String α :=
   if name == "defocus" then .ok (neg ((d.lookup "C10").getD zero))
